@@ -9,7 +9,20 @@ def one(path):
     notes = open(os.path.join(path, "notes.md")).read()
     m = re.search(r"C\d\d", notes[:200])
     prop = m.group(0) if m else DEF[pkg][0]
-    props = [prop] + [p for p in DEF[pkg] if p != prop]
+    base = list(DEF.get(pkg, []))
+    if not base:
+        # themed rounds: derive the checks from the packages the patch touches
+        TOUCH = {"qr/": ["C01", "C12", "C13"], "datamatrix/": ["C02", "C12", "C13"], "aztec/": ["C03", "C12", "C13"], "pdf417/": ["C04", "C12", "C13"], "code128/": ["C05", "C14"],
+                 "code39/": ["C07", "C14"], "code93/": ["C07"], "codabar/": ["C08"], "twooffive/": ["C08"], "ean/": ["C06", "C14"], "utils/bitlist": ["C18", "C01", "C03"],
+                 "utils/galois": ["C17", "C01", "C02", "C03"], "utils/gfpoly": ["C17", "C01", "C02", "C03"], "utils/reedsolomon": ["C17", "C01", "C02", "C03"],
+                 "utils/base1dcode": ["C05", "C06", "C07", "C08", "C09", "C14"], "utils/runeint": ["C05", "C06", "C08"], "scaledbarcode": ["C09", "C14"], "barcode.go": ["C09"]}
+        for line in open(os.path.join(path, "patch.diff")):
+            if line.startswith("+++ b/"):
+                for k, v in TOUCH.items():
+                    if line[6:].startswith(k):
+                        base += [p for p in v if p not in base]
+        base += [p for p in ("C10", "C11", "C15", "C16") if p not in base]
+    props = [prop] + [p for p in base if p != prop]
     if "C11" in notes[:400] and "C11" not in props:
         props.append("C11")
     r = subprocess.run(["/verif/tools/evalmutant.sh", path, "quick"] + props, capture_output=True, text=True, errors="replace")
